@@ -192,29 +192,37 @@ def strip_optional(t):
     return t, False
 
 
-def perturbed(t, old, variant, markup=False):
-    """a non-default value of type t different from old, or (False, None)"""
+def candidates(t, old, markup=False):
+    """non-default values of type t different from old, each a list of alternatives tried in turn until the loader
+    accepts one: [[v, fallback, ...], ...]; [] if the type is not perturbed"""
     base, opt = strip_optional(t)
     if base is str and markup:
-        new = ["<p>P &amp; q &lt; r</p>", "<p>Pq7</p>", "Pq7"][variant]
-        return True, new
+        return [["<p>P &amp; q &lt; r</p>", "<p>Pq7</p>", "Pq7"]]
     if base is str:
-        new = [META, TAME, "7"][variant]
-        return (True, new) if new != old else (True, new + "x")
+        return [[x for x in (META, TAME, "7") if x != old]]
     if base is bool:
-        return True, (not old) if isinstance(old, bool) else (variant == 0)
+        return [[v] for v in (True, False) if v is not old]
     if base is int:
-        return True, (old + 1) if isinstance(old, int) else 1 + variant
+        out = [[(old + 1) if isinstance(old, int) else 1]]
+        if old != 0:
+            out.append([0])          # falsy, but not absent
+        return out
     if base is float:
-        return True, (old + 0.5) if isinstance(old, (int, float)) else 1.5
+        out = [[(old + 0.5) if isinstance(old, (int, float)) else 1.5]]
+        if old != 0.0:
+            out.append([0.0])
+        return out
     if isinstance(base, type) and issubclass(base, enum.Enum):
         ms = list(base)
         if len(ms) < 2:
-            return False, None
-        if old in ms:
-            return True, ms[(ms.index(old) + 1 + variant) % len(ms)]
-        return True, ms[variant % len(ms)]
-    return False, None
+            return []
+        return [[ms[(ms.index(old) + 1) % len(ms)] if old in ms else ms[0]]]
+    return []
+
+
+def perturbed(t, old, variant, markup=False):
+    c = candidates(t, old, markup)
+    return (bool(c), c[0][0] if c else None)
 
 
 def field_table(db):
@@ -379,13 +387,13 @@ def run(ck, rng, quick):
                 ck.violation(f"implementation and model disagree on {s!r}: impl {r} model {[mesc, mattr, back]}",
                              {"text": s, "broken": "correspondence Xml.escape"}, found_input=False)
     # ---- (b) base databases and perturbations
-    budget = 70 if quick else 100000
+    tasks = []
     if ck.replay:
         rp = json.load(open(ck.replay))["replay"]
-        only = (rp.get("base"), rp.get("cls"), rp.get("field"), rp.get("variant"))
+        only = (rp.get("base"), rp.get("cls"), rp.get("field"), None)
     else:
         only = None
-    for bname, mk in base_databases(rng, quick):
+    for bname, mk in base_databases(base_rng(ck.seed, ck.pid), quick):
         if only and only[0] not in (None, bname):
             continue
         try:
@@ -424,49 +432,29 @@ def run(ck, rng, quick):
         ck.hist("classes", f"{bname}:{len({k[0] for k in keys})} classes/{len(keys)} fields")
         if only and only[1]:
             keys = [k for k in keys if k == (only[1], only[2])]
-        elif quick and len(keys) > budget // 2:
-            keys = rng.sample(keys, budget // 2)
-        for cls, fname in keys:
-            insts = tab[(cls, fname)]
-            for variant in ((only[3],) if only and only[3] is not None else (0, 1, 2)):
-                olds = [getattr(o, fname, None) for o, _, _ in insts]
-                news = []
-                for (o, path, t), old in zip(insts, olds):
-                    # the text of a DESC is XHTML markup, not character data
-                    _, nv = perturbed(t, old, variant, markup=(cls == "Description" and fname == "text"))
-                    news.append(nv)
-                    object.__setattr__(o, fname, nv)
-                rep = {"base": bname, "cls": cls, "field": fname, "variant": variant, "value": repr(news[0])}
-                tags = {"pert", f"{cls}.{fname}"}
-                try:
-                    # derived attributes (resolved references, converted keys, ...) follow the described ones
-                    _, e_ref, _ = cc.guarded(db.refresh, timeout=60)
-                    if e_ref is not None:
-                        ck.hist("perturbation", f"rejected:refresh:{type(e_ref).__name__}")
-                        if isinstance(news[0], str) and variant < 2:
-                            continue
-                        break
-                    dbp, err, info2 = roundtrip(db, "pert")
-                    ck.count(("pert", bname, cls, fname, variant))
-                    if err == "parse":
-                        report(ck, tags | {"not-well-formed"}, f"{cls}.{fname} = {news[0]!r}: the written document is not well-formed XML ({info2})", rep)
-                        break
-                    if err:
-                        ck.hist("perturbation", f"rejected:{err}")
-                        is_str = isinstance(news[0], str)
-                        if is_str and variant < 2:
-                            continue        # try the tamer value
-                        break
-                    ck.hist("perturbation", "ok:" + type(news[0]).__name__)
-                    d = db_diff(db, dbp)
-                    if d:
-                        report(ck, tags, f"{cls}.{fname} set to {news[0]!r}: after write + load the database differs at "
-                               f"{'.'.join(map(str, d[0]))}: {d[1]}", rep)
-                    break
-                finally:
-                    for (o, _, _), old in zip(insts, olds):
-                        object.__setattr__(o, fname, old)
-                    cc.guarded(db.refresh, timeout=60)
+        for k in keys:
+            tasks.append((bname, k[0], k[1]))
+    # ---- (c) the perturbations, in parallel worker processes (each builds its own copy of the base databases)
+    import multiprocessing as mp
+    nproc = 1 if only else min(14, max(1, len(tasks)))
+    chunks = [tasks[i::nproc] for i in range(nproc)]
+    seed_b = ck.seed
+    args = [(seed_b, ck.pid, quick, ch, i) for i, ch in enumerate(chunks) if ch]
+    if nproc == 1:
+        results = [perturb_worker(a) for a in args]
+    else:
+        with mp.get_context("fork").Pool(nproc) as pool:
+            results = pool.map(perturb_worker, args)
+    for res in results:
+        for rec in res:
+            if rec[0] == "count":
+                ck.count(rec[1])
+            elif rec[0] == "hist":
+                ck.hist(rec[1], rec[2])
+            elif rec[0] == "broken":
+                ck.note_broken(rec[1])
+            else:
+                report(ck, set(rec[1]), rec[2], rec[3])
     probes(ck)
     ck.assumptions = [
         "the order of the containers / subsets / specs inside the database object follows the file order; databases are compared with these "
@@ -537,6 +525,94 @@ def probes(ck):
         report(ck, {"unwritten-names"}, f"tags read but never written: {still}", {"probe": "names"})
 
 
+def base_rng(seed, pid):
+    import random
+    return random.Random(seed * 7919 + 11)
+
+
+def perturb_worker(arg):
+    """sets one (class, field) at a time on all instances of a base database to each candidate value, writes, loads,
+    compares; returns records for the main process"""
+    global SCRATCH
+    import warnings
+    warnings.simplefilter("ignore")
+    seed, pid, quick, tasks, wi = arg
+    out = []
+    SCRATCH_saved = SCRATCH
+    SCRATCH = tempfile.mkdtemp(prefix=f"c11w{wi}_", dir=SCRATCH_saved)
+    try:
+        makers = dict(base_databases(base_rng(seed, pid), quick))
+        by_base = {}
+        for bname, cls, fname in tasks:
+            by_base.setdefault(bname, []).append((cls, fname))
+        for bname, keys in by_base.items():
+            try:
+                db = makers[bname]()
+            except Exception as e:  # noqa
+                out.append(("broken", f"worker: base database {bname}: {type(e).__name__}: {e}"))
+                continue
+            tab = field_table(db)
+            for cls, fname in keys:
+                insts = tab.get((cls, fname))
+                if not insts:
+                    continue
+                markup = cls == "Description" and fname == "text"
+                olds = [getattr(o, fname, None) for o, _, _ in insts]
+                ncand = max(len(candidates(t, old, markup)) for (_, _, t), old in zip(insts, olds))
+                for ci in range(ncand):
+                    depth = 0
+                    while True:
+                        news = []
+                        for (o, path, t), old in zip(insts, olds):
+                            cs = candidates(t, old, markup)
+                            alt = cs[min(ci, len(cs) - 1)]
+                            nv = alt[min(depth, len(alt) - 1)]
+                            news.append(nv)
+                            object.__setattr__(o, fname, nv)
+                        rep = {"base": bname, "cls": cls, "field": fname, "variant": [ci, depth], "value": repr(news[0])}
+                        tags = ["pert", f"{cls}.{fname}"]
+                        retry = False
+                        try:
+                            # derived attributes (resolved references, converted keys, ...) follow the described ones
+                            _, e_ref, _ = cc.guarded(db.refresh, timeout=60)
+                            if e_ref is not None:
+                                out.append(("hist", "perturbation", f"rejected:refresh:{type(e_ref).__name__}"))
+                                retry = True
+                            else:
+                                dbp, err, info2 = roundtrip(db, "pert")
+                                out.append(("count", ("pert", bname, cls, fname, ci, depth)))
+                                if err == "parse":
+                                    out.append(("viol", tags + ["not-well-formed"],
+                                                f"{cls}.{fname} = {news[0]!r}: the written document is not well-formed XML ({info2})", rep))
+                                elif err:
+                                    out.append(("hist", "perturbation", f"rejected:{err}"))
+                                    retry = True
+                                else:
+                                    out.append(("hist", "perturbation", "ok:" + type(news[0]).__name__))
+                                    d = db_diff(db, dbp)
+                                    if d:
+                                        out.append(("viol", tags, f"{cls}.{fname} set to {news[0]!r}: after write + load the database "
+                                                    f"differs at {'.'.join(map(str, d[0]))}: {d[1]}", rep))
+                        finally:
+                            for (o, _, _), old in zip(insts, olds):
+                                object.__setattr__(o, fname, old)
+                            cc.guarded(db.refresh, timeout=60)
+                        # a value the loader rejects: try the tamer alternative
+                        alts = max(len(candidates(t, old, markup)[min(ci, len(candidates(t, old, markup)) - 1)])
+                                   for (_, _, t), old in zip(insts, olds))
+                        if retry and depth + 1 < alts:
+                            depth += 1
+                            continue
+                        break
+    except Exception as e:  # noqa
+        import traceback
+        out.append(("broken", f"perturbation worker {wi}: {type(e).__name__}: {e} {traceback.format_exc()[-300:]}"))
+    finally:
+        shutil.rmtree(SCRATCH, ignore_errors=True)
+        SCRATCH = SCRATCH_saved
+    return out
+
+
 def report(ck, tags, what, rep):
     f = ck.match_known(tags)
     if f is not None:
@@ -572,6 +648,27 @@ def check_entry_points(ck, rng, bname, db, pdx, quick):
                     zo.writestr(n, z.read(n))
             return odxtools.load_pdx_file(p)
         variants.append((f"archive order {o[:3]}..", rezip))
+    # the suffix dispatch is case-insensitive at every entry point: the same members with upper-case suffixes
+    du = os.path.join(SCRATCH, "dirU")
+    shutil.rmtree(du, ignore_errors=True)
+    os.makedirs(du)
+
+    def up(n):
+        stem, dot, suf = n.rpartition(".")
+        return f"{stem}.{suf.upper()}" if dot and suf.lower().startswith("odx") else n
+    for n in names:
+        with open(os.path.join(du, up(n)), "wb") as f:
+            f.write(z.read(n))
+    variants.append(("directory, upper-case suffixes", lambda: odxtools.load_directory(du)))
+    variants.append(("files, upper-case suffixes", lambda: odxtools.load_files(*[os.path.join(du, up(n)) for n in sorted(names)])))
+
+    def rezip_upper():
+        p = os.path.join(SCRATCH, "reU.PDX")
+        with zipfile.ZipFile(p, "w") as zo:
+            for n in names:
+                zo.writestr(up(n), z.read(n))
+        return odxtools.load_file(p)
+    variants.append(("archive, upper-case suffixes", rezip_upper))
     for what, fn in variants:
         ck.count(("entry", bname, what))
         try:
